@@ -76,6 +76,42 @@ pub fn jwk(cex: &Value) -> Result<String, String> {
     if k.thumbprint_sha256_b64() != bare {
       log.push("[thumbprint] optional members change the thumbprint".into());
     }
+    // each optional member on its own, through the setters and through JSON, for every key type
+    {
+      type Set = fn(&mut Jwk);
+      let setters: Vec<(&str, Set)> = vec![
+        ("use", |k| k.set_use(JwkUse::Encryption)),
+        ("key_ops", |k| k.set_key_ops([JwkOperation::Verify])),
+        ("alg", |k| k.set_alg("ES256")),
+        ("kid", |k| k.set_kid("some-kid")),
+        ("x5u", |k| k.set_x5u(identity_core::common::Url::parse("https://example.com/cert").unwrap())),
+        ("x5c", |k| k.set_x5c(["MIIB"])),
+        ("x5t", |k| k.set_x5t("dGh1bWI")),
+        ("x5t#S256", |k| k.set_x5t_s256("dGh1bWIyNTY")),
+      ];
+      let bases: Vec<(&str, Jwk)> = vec![
+        ("OKP", Jwk::from_params(JwkParamsOkp { crv: "Ed25519".into(), x: "eA".into(), d: None })),
+        ("EC", Jwk::from_params(identity_jose::jwk::JwkParamsEc { crv: "P-256".into(), x: "eA".into(), y: "eQ".into(), d: None })),
+        ("oct", Jwk::from_params(identity_jose::jwk::JwkParamsOct { k: "aw".into() })),
+      ];
+      for (kty, base) in &bases {
+        let bare = base.thumbprint_sha256_b64();
+        for (name, set) in &setters {
+          let mut k2 = base.clone();
+          set(&mut k2);
+          if k2.thumbprint_sha256_b64() != bare {
+            log.push(format!("[thumbprint] {kty}: optional member {name} changes the thumbprint"));
+          }
+          if let Ok(text) = serde_json::to_string(&k2) {
+            if let Ok(back) = serde_json::from_str::<Jwk>(&text) {
+              if back.thumbprint_sha256_b64() != bare {
+                log.push(format!("[thumbprint] {kty}: optional member {name} (from JSON) changes the thumbprint"));
+              }
+            }
+          }
+        }
+      }
+    }
     let p = k.to_public().unwrap();
     if p.alg() != Some("EdDSA") || p.kid() != Some("kid") || p.use_() != Some(JwkUse::Signature) {
       log.push("[public] optional members not carried into the projection".into());
